@@ -59,6 +59,21 @@ theorem pcrel_slice_in_window (src : Bytes) (h : (decode src).pcrel ≠ 0) :
   have := err_len_le src
   omega
 
+/-- What `fixBlock` (`internal/patch/fix_addr_amd64.go:63`, `ins.Opcode != 0`) relies on: an instruction with a PC-relative field
+    is never reported with the numeric `Opcode` 0.  **Stated, not proved**: it needs an invariant relating `inst.Opcode` to the
+    consumed opcode bytes along every table path, which is not built yet.  It is enforced on every evaluation of the implementation
+    by the oracle of `checks/C16.py`; `Inst.Opcode` itself is part of the three-way compared observation.  The unconditional
+    variant ("every successful decode has Opcode ≠ 0") is false — `Findings/C16OpcodeZero.lean` (`00 00`). -/
+def pcrel_opcode_nonzero : Prop :=
+  ∀ src : Bytes, (decode src).err = .ok → (decode src).pcrel ≠ 0 → (decode src).opcode ≠ 0
+
+/-- instances: `CALL rel32` (E8), `JE rel8` (74), `MOV RAX,[RIP+d]` (48 8B 05), `PSHUFB XMM0,[RIP+d]` (66 0F 38 00 05: ModRM is the
+    fourth opcode byte and is recorded, Opcode = 0x0F380005) -/
+example : (decode [0xe8#8, 0, 0, 0, 0]).opcode = 0xe8000000 ∧ (decode [0x74#8, 0x10]).opcode = 0x74000000 ∧
+    (decode [0x48#8, 0x8b, 0x05, 1, 0, 0, 0]).opcode = 0x8b050000 ∧
+    (decode [0x66#8, 0x0f, 0x38, 0x00, 0x05, 1, 0, 0, 0]).opcode = 0x0f380005 ∧
+    (decode [0x66#8, 0x0f, 0x38, 0xdc, 0xc0]).opcode = 0x0f38dcc0 := by decide +kernel
+
 /-- Consumers make progress: one iteration of the `pos = pos + ins.Len` loops strictly advances and stays inside the code. -/
 theorem consumers_progress (code : Bytes) (pos p : Nat) (hp : pos ≤ code.length) (h : scanStep code pos = some p) :
     pos < p ∧ p ≤ code.length := by
